@@ -16,6 +16,7 @@ pub fn dispatch(cmd: &str, c: &Value) -> Value {
         "open_prefix" => open_prefix(c),
         "archive_fault" => archive_fault(c),
         "fasta_parse" => fasta_parse(c),
+        "splitters" => splitters(c),
         "reader_history" => reader_history(c),
         "lz_estimate" => lz_estimate(c),
         "push_priority" => push_priority(c),
@@ -691,4 +692,58 @@ pub fn reader_history(c: &Value) -> Value {
     }
     let _ = std::fs::remove_file(&path);
     json!({ "ok": ok, "why": why })
+}
+
+// ---------------------------------------------------------------- C11 splitters
+pub fn splitters(c: &Value) -> Value {
+    let k = c["k"].as_u64().unwrap() as usize; let seg = c["segment_size"].as_u64().unwrap() as usize;
+    let contigs: Vec<Vec<u8>> = c["contigs"].as_array().unwrap().iter().map(|x| bytes(x)).collect();
+    let (s, cand, dup) = ragc_core::splitters::determine_splitters(&contigs, k, seg);
+    // reference: multiplicities of canonical k-mers
+    let mut cnt: std::collections::HashMap<u64, usize> = Default::default();
+    for ct in &contigs {
+        let mut run = 0usize;
+        for p in 0..ct.len() {
+            if ct[p] > 3 { run = 0; continue; }
+            run += 1;
+            if run >= k {
+                let w = &ct[p + 1 - k..p + 1];
+                let mut d = 0u64; let mut r = 0u64;
+                for j in 0..k { d |= (w[j] as u64) << (62 - 2 * j); r |= ((3 - w[k - 1 - j]) as u64) << (62 - 2 * j); }
+                *cnt.entry(d.min(r)).or_default() += 1;
+            }
+        }
+    }
+    let mut ok = true;
+    for (v, n) in &cnt { if (*n == 1) != cand.contains(v) || (*n > 1) != dup.contains(v) { ok = false; } }
+    for v in cand.iter().chain(dup.iter()) { if !cnt.contains_key(v) { ok = false; } }
+    for v in s.iter() { if !cand.contains(v) { ok = false; } }
+    // selection rule restated: pick a candidate only after `seg` bases since the last pick (restart after a pick and at
+    // non-ACGT codes), plus the right-most candidate since the last restart at the contig end
+    let mut exp: std::collections::HashSet<u64> = Default::default();
+    for ct in &contigs {
+        let (mut cur, mut run) = (seg, 0usize); let mut recent: Vec<u64> = vec![];
+        for p in 0..ct.len() {
+            if ct[p] > 3 { run = 0; recent.clear(); }
+            else {
+                run += 1;
+                if run >= k {
+                    let w = &ct[p + 1 - k..p + 1];
+                    let mut d = 0u64; let mut r = 0u64;
+                    for j in 0..k { d |= (w[j] as u64) << (62 - 2 * j); r |= ((3 - w[k - 1 - j]) as u64) << (62 - 2 * j); }
+                    let v = d.min(r);
+                    recent.push(v);
+                    if cur >= seg && cand.contains(&v) { exp.insert(v); cur = 0; run = 0; recent.clear(); }
+                }
+            }
+            cur += 1;
+        }
+        for v in recent.iter().rev() { if cand.contains(v) { exp.insert(*v); break; } }
+    }
+    let got: std::collections::HashSet<u64> = s.iter().copied().collect();
+    if got != exp { ok = false; }
+    let mut sv: Vec<u64> = s.into_iter().collect(); sv.sort();
+    let mut cv: Vec<u64> = cand.into_iter().collect(); cv.sort();
+    let mut dv: Vec<u64> = dup.into_iter().collect(); dv.sort();
+    json!({ "splitters": sv, "singletons": cv, "duplicates": dv, "ok": ok })
 }
